@@ -40,7 +40,7 @@ func genRefCase(r *rng, id string) *ValCase {
 		return o, m
 	}
 	rootID := pick(r, []string{"", "http://x.test/root.json", "http://x.test/dir/root.json", "urn:example:root", "http://x.test/"})
-	baseOpt := pick(r, []string{"", "", "http://base.test/b/doc.json"})
+	baseOpt := pick(r, []string{"", "", "http://base.test/b/doc.json", "http://base.test/b/doc.json", "http://base.test/b/../c/./doc.json", "http://base.test/x/.."})
 	effBase := baseOpt
 	if rootID != "" {
 		effBase = resolveURI(baseOpt, rootID)
@@ -108,6 +108,7 @@ func genRefCase(r *rng, id string) *ValCase {
 	c := &ValCase{ID: id, Base: baseOpt, HSeed: 0}
 	nrem := r.intn(3)
 	var remoteURIs, canons []string
+	backOf := map[int]int{}
 	for i := 0; i < nrem; i++ {
 		rel := pick(r, []string{"remote", "r/deep/remote", "../other/remote"}) + fmt.Sprint(i) + ".json"
 		if !absolute {
@@ -133,6 +134,7 @@ func genRefCase(r *rng, id string) *ValCase {
 		// links between remote documents: chains, diamonds, cycles
 		if i > 0 && r.chance(1, 2) {
 			k := r.intn(i)
+			backOf[i] = k
 			target := remoteURIs[k]
 			if canons[k] != "" && r.chance(1, 2) {
 				target = canons[k] // an already loaded document, by its canonical URI
@@ -189,6 +191,26 @@ func genRefCase(r *rng, id string) *ValCase {
 			targets = append(targets, refTarget{ma, []string{canon + "#ra"}})
 		}
 	}
+	// cycles between loaded documents by retrieval URI: a document that is referred back to also refers
+	// forward (both may declare an $id of their own: the cache must know them by the URI they were asked for)
+	for i := 1; i < nrem; i++ {
+		k, ok := backOf[i]
+		if !ok || !r.chance(1, 2) {
+			continue
+		}
+		for ui := range c.Universe {
+			if c.Universe[ui].URI != remoteURIs[k] {
+				continue
+			}
+			if d, ok := c.Universe[ui].Doc.(DObj); ok {
+				for mi := range d {
+					if d[mi].K == "$defs" {
+						d[mi].V = append(d[mi].V.(DObj), DMem{"fwd", DObj{{"$ref", DStr(remoteURIs[i] + "#ra")}}})
+					}
+				}
+			}
+		}
+	}
 	if r.chance(1, 12) {
 		c.NoLoader = true
 	}
@@ -206,7 +228,7 @@ func genRefCase(r *rng, id string) *ValCase {
 		hold(pick(r, t.refs))
 	}
 	if r.chance(1, 7) {
-		hold(pick(r, []string{"#/nope", "#nope", "missing.json", "#/$defs/" + pointerEscape(defs[0].K) + "/const", "#/$defs", "#/$defs/-1", "#/properties/h0/$ref", "%zz", "#/$defs/~2", "#a%"}))
+		hold(pick(r, []string{"#/definitions/" + pointerEscape(defs[0].K), "#/definitions/" + pointerEscape(defs[0].K), "#/nope", "#nope", "missing.json", "#/$defs/" + pointerEscape(defs[0].K) + "/const", "#/$defs", "#/$defs/-1", "#/properties/h0/$ref", "%zz", "#/$defs/~2", "#a%"}))
 	}
 	if r.chance(1, 6) && len(defs) > 0 {
 		hold("#") // the root itself (recursion through a property)
